@@ -71,6 +71,22 @@ def rfPass (toks : List String) : NetM String := fun s =>
     (.ok res, { s with nodes := s.nodes.modify s.cur (fun n => { n with rf := d' }), w := w' })
   | none => (.ok "bad-op", s)
 
+/-- `RF24Network.write(frame)` for a frame whose header the caller built once and re-uses: `frame.header.frame_id = fid`
+    is assigned after construction (so the constructor still draws its id), everything else as `apiNetWrite` -/
+def apiNetWriteId (to : Int) (ty : Int) (msg : Bytes) (fid : Nat) : NetM (Bool × Frame) := do
+  let _ ← takeId
+  let hdr : Header := { fromNode := 0o7777, toNode := maskInt to 0xFFF, frameId := fid,
+                        msgType := .int (maskInt ty 0xFF), reserved := 0 }
+  if !isValid hdr.toNode then throw .attributeError
+  let ok ← nodeValidateMsgLen msg.length
+  let msg := if ok then msg else msg.take MAX_FRAG_SIZE
+  let n ← getNode
+  let caller : Frame := { header := { hdr with fromNode := n.a.addr }, message := msg }
+  let _ ← takeId
+  modNode fun nd => { nd with frameBuf := wireCopy caller }
+  let r ← nodeWrite F hdr.toNode TX_NORMAL
+  return (r, caller)
+
 /-- `dflt <method> <required args…>`: the node-level call with its optional parameters at the documented defaults -/
 def expandNetDefaults : List String → List String
   | ["dflt", "write", to, ty, msg] => ["write", to, ty, msg, "56"]          -- traffic_direct = 0o70
@@ -107,6 +123,9 @@ def nodeCall (toks : List String) : Option (NetM String) :=
       return "ok")
   | ["get", "multicast_level"] => some (do return toString (← getNode).a.netLvl)
   | ["get", "multicast_relay"] => some (do let n ← getNode; return sBool (n.cfg.allowMulticast && n.relayEnabled))
+  | ["writeid", to, ty, msg, fid] => do
+    let to ← parseInt to; let ty ← parseInt ty; let msg ← unhex msg; let fid ← parseNat fid
+    some (do let (r, f) ← apiNetWriteId to ty msg fid; return s!"{sBool r} frame={showFrame f}")
   | ["nsend", to, ty, msg] => do
     let to ← parseInt to; let ty ← parseInt ty; let msg ← unhex msg
     some (do let (r, _) ← apiNetWrite to ty msg 0o70; return sBool r)
